@@ -83,6 +83,40 @@ func c05Modes(r *Rng, src []byte) []string {
 	}
 }
 
+// queryProbe builds a program of builtin calls, half of them to methods that have several
+// overloads in the configuration (ties between signatures of one name are where output
+// order can depend on map order), and returns it with the row of one of the calls.
+func queryProbe(c *Ctx, r *Rng) ([]byte, int) {
+	count := map[string]int{}
+	for _, b := range c.Builtins {
+		count[fmt.Sprintf("%s|%s|%v", b.Class, b.Name, b.Static)]++
+	}
+	var over []BuiltinMethod
+	for _, b := range c.Builtins {
+		if count[fmt.Sprintf("%s|%s|%v", b.Class, b.Name, b.Static)] > 1 {
+			over = append(over, b)
+		}
+	}
+	var sb strings.Builder
+	n := r.Range(2, 8)
+	for k := 0; k < n; k++ {
+		pool := c.Builtins
+		if len(over) > 0 && r.Chance(1, 2) {
+			pool = over
+		}
+		g := &Gen{r: r, builtins: pool}
+		switch r.Intn(3) {
+		case 0:
+			sb.WriteString(g.builtinCall() + "\n")
+		case 1:
+			sb.WriteString(fmt.Sprintf("v%d = %s\n", k, g.builtinCall()))
+		default:
+			sb.WriteString(fmt.Sprintf("p %s\n", g.builtinCall()))
+		}
+	}
+	return []byte(sb.String()), 1 + r.Intn(n)
+}
+
 func (o *confluence) Make(c *Ctx, i int) *Case {
 	r := Stream(c.Seed, "C05", i, "case")
 	src, origin := pickProgram(c, r, true)
@@ -90,7 +124,39 @@ func (o *confluence) Make(c *Ctx, i int) *Case {
 		src, origin = Generate(r, c.Builtins, true), "generated-ties"
 	}
 	mode := c05Modes(r, src)
+	if r.Chance(1, 5) {
+		// editor-query probe: one call of a configured (preferably overloaded) method per
+		// line, queried on exactly the row of one of the calls
+		var row int
+		src, row = queryProbe(c, r)
+		origin = "query-probe"
+		mode = []string{r.Pick(queryModes), fmt.Sprintf("--row=%d", row)}
+	}
 	cs := &Case{Prop: "C05", Kind: "confluence", Index: i, Cfg: "shipped-test", Meta: map[string]string{"origin": origin}}
+	if r.Chance(1, 8) {
+		// a configuration in which one class is declared by several files that disagree:
+		// what ti prints then depends on the order in which the files are registered, which
+		// must be the same in every process (sorted file names), however they are read
+		v := r.Intn(4)
+		retA, retB := []string{"Int", "String", "Float", "Bool"}[v], []string{"Float", "Int", "String", "Symbol"}[v]
+		mk := func(ret, doc string) []byte {
+			return []byte(fmt.Sprintf(`{"frame":"Builtin","class":"Dupe","instance_methods":[],"class_methods":[{"name":"read","arguments":[],"return_type":{"type":["%s"]},"document":"%s"},{"name":"size","arguments":[{"type":["%s"]}],"return_type":{"type":["%s"]}}]}`, ret, doc, ret, ret))
+		}
+		cfg := map[string][]byte{}
+		for n, b := range c.ShippedCfg {
+			cfg[n] = b
+		}
+		cfg["dupe.json"] = mk(retA, "first")
+		cfg["dupe_ext.json"] = mk(retB, "second")
+		cfg["zz_dupe_more.json"] = mk(retA, "")
+		cs.Configs = map[string]map[string][]byte{"dup": cfg}
+		cs.Cfg = "dup"
+		src = append([]byte("x = Dupe.read\ndbtp x\ny = Dupe.size(x)\ndbtp y\nDupe.size(1, 2)\n"), src...)
+		cs.Meta["origin"] = origin + "+dup-config"
+		if len(mode) > 0 && strings.HasPrefix(mode[len(mode)-1], "--row=") {
+			mode[len(mode)-1] = fmt.Sprintf("--row=%d", 1+r.Intn(5))
+		}
+	}
 	argv := append([]string{target}, mode...)
 	for k := 0; k < o.k; k++ {
 		st := Step{Node: "ti", Argv: argv, Seed: r.U64(), Sched: "seeded"}
@@ -220,6 +286,18 @@ func (o *confluence) attribute(c *Ctx, w *Worker, cs *Case, i int, firstOut stri
 		return c.siteName(cs.Steps[i].Only[0])
 	}
 	argv := cs.Steps[0].Argv
+	if res.SchedEvts > 0 {
+		// every map site canonical, only the goroutine schedule seeded
+		probe := cloneCase(cs)
+		probe.Steps = []Step{cs.Steps[0], cs.Steps[i]}
+		probe.Steps[0].Files = stepFiles(cs, 0)
+		probe.Steps[1].Only = []int{-1}
+		c.RunStep(w, probe, 0, stage2Budget, false)
+		r2 := c.RunStep(w, probe, 1, stage2Budget, true)
+		if normaliseOut(argv, r2.Stdout) != firstOut || r2.Exit != firstExit {
+			return "goroutine-schedule"
+		}
+	}
 	for _, s := range res.Sites {
 		if s.MaxN < 2 {
 			continue
